@@ -12,7 +12,7 @@ import os
 
 from .. import gen, kernel, realize
 from ..model import HistoryModel, TreeModel, flat_ops
-from ..world import World, exec_history_step, gen_history_step
+from ..world import World, exec_history_step, gen_history_step, mirror_step
 from .base import Engine, Outcome
 from .history import gen_swarm as history_swarm
 
@@ -218,18 +218,7 @@ class ReopenEngine(Engine):
             st = gen_history_step(rng, model, tree, classes, swarm, nid, program=swarm["program"])
             nid += 1
             steps.append(st)
-            if st["op"] == "do":
-                model.do({"id": st["cs"]["id"], "desc": st["cs"]["desc"], "ops": st["cs"]["ops"]})
-            elif st["op"] == "set_limit":
-                model.limit = st["limit"]
-            elif st["op"] in ("undo", "undo_drop") and model.undo:
-                model.undo_sel(None, drop=st["op"] == "undo_drop")
-            elif st["op"] == "undo_sel" and model.undo:
-                model.undo_sel(st["i"] % len(model.undo), drop=bool(st.get("drop")))
-            elif st["op"] == "redo" and model.redo and model.redo_feasible(None):
-                model.redo_sel(None)
-            elif st["op"] == "redo_sel" and model.redo and model.redo_feasible(st["i"] % len(model.redo)):
-                model.redo_sel(st["i"] % len(model.redo))
+            mirror_step(model, st)
         if not any(s["op"] == "reopen" for s in steps):
             steps.insert(rng.randint(0, len(steps)), {"op": "reopen"})
         return {"init": init, "limit": swarm["limit"], "steps": steps, "swarm": swarm}
